@@ -470,6 +470,7 @@ pub fn gen_case(rng: &mut Rng) -> Case {
             _ => {
                 // valid, possibly with a dependency placed in the input's directory, the load path, both or neither
                 let p = join(dir, &format!("in{k}.scss"));
+                let mut pre: Option<String> = None;
                 let dep = if rng.chance(1, 2) {
                     let how = *rng.pick(&["@import \"dep{k}\";\n", "@use \"dep{k}\";\n", "@use \"dep{k}\" as d;\n"]);
                     let stmt = how.replace("{k}", &k.to_string());
@@ -503,6 +504,12 @@ pub fn gen_case(rng: &mut Rng) -> Case {
                     if decoy && !in_dir && !in_lp {
                         unres = true;
                     }
+                    // an earlier load that is found ONLY in the load path: where it was found must not
+                    // influence where the next one is looked for
+                    if in_dir && in_lp && rng.chance(1, 2) {
+                        files.insert(join(load_path.as_ref().unwrap(), &format!("_pre{k}.scss")), format!("e{k} {{ from: pre{k}-from-lp; }}\n"));
+                        pre = Some(format!("@use \"pre{k}\";\n"));
+                    }
                     expect = if in_dir {
                         Some(format!("dep{k}-from-dir"))
                     } else if in_lp {
@@ -514,12 +521,38 @@ pub fn gen_case(rng: &mut Rng) -> Case {
                 } else {
                     None
                 };
+                let dep = match (pre, dep) {
+                    (Some(a), Some(b)) => Some(format!("{a}{b}")),
+                    (_, d) => d,
+                };
                 files.insert(p.clone(), valid_source(rng, k, dep.as_deref()));
                 inputs.push(p);
             }
         }
         expect_dep_from.push(expect);
         unresolvable.push(unres);
+    }
+    // argument order is not name order: rotate / reverse the inputs, and sometimes name one twice
+    if inputs.len() > 1 {
+        match rng.below(4) {
+            0 => {
+                inputs.reverse();
+                expect_dep_from.reverse();
+                unresolvable.reverse();
+            }
+            1 => {
+                inputs.rotate_left(1);
+                expect_dep_from.rotate_left(1);
+                unresolvable.rotate_left(1);
+            }
+            _ => {}
+        }
+    }
+    if inputs.len() < 3 && rng.chance(1, 6) {
+        let k = rng.usize(inputs.len());
+        inputs.push(inputs[k].clone());
+        expect_dep_from.push(expect_dep_from[k].clone());
+        unresolvable.push(unresolvable[k]);
     }
     // a dependency marker is only expected if every earlier input compiles; the
     // judge only looks at markers when the status is 0, which implies that.
